@@ -2340,6 +2340,13 @@ class Interp:
                 if isinstance(x, Arr):
                     return x.ndim == 0
                 return _is_pynum(x)
+            if last == 'tile' and len(args) == 2 and not kw:
+                x, k = self._as_arr(args[0]), self._as_arr(args[1])
+                if isinstance(x, Arr) and x.mask is None and isinstance(k, Arr) and k.ndim == 0 and _len_label(k.poly):
+                    r_ = _Repeat(x, _len_label(k.poly))
+                    r_.tiled = True            # the whole of x, k times over:  out[j*n + i] == x[i]
+                    return r_
+                return Unk('np.tile', e)
             if last == 'repeat' and len(args) == 2 and 'axis' not in kw:
                 x, k = self._as_arr(args[0]), self._as_arr(args[1])
                 if isinstance(x, Arr) and x.mask is None and isinstance(k, Arr) and k.ndim == 0 and _len_label(k.poly):
@@ -2660,6 +2667,13 @@ class Interp:
                 sh = list(args[0]) if len(args) == 1 and isinstance(args[0], (tuple, list)) else list(args)
                 labs = [(_len_label(v.poly) if isinstance(v, Arr) and v.ndim == 0 else None) for v in map(self._as_arr, sh)]
                 x = recv.x
+                if getattr(recv, 'tiled', False) and len(labs) == 2 and None not in labs and x.ndim == 1 and x.dims[0]:
+                    # np.tile(x, k).reshape(k, n) has x on every row; .reshape(n, k) cuts the k copies laid end to end into rows of k: row i is not x[i] repeated
+                    if labs == [recv.label, x.dims[0]]:
+                        return Arr((recv.label, x.dims[0]), x.poly, unit=x.unit)
+                    if labs == [x.dims[0], recv.label]:
+                        return Unk('np.tile(x, k).reshape(n, k): the copies of x are laid end to end, so row i is not x[i] repeated k times', e, definite=True)
+                    return Unk('np.tile result reshaped', e)
                 if len(labs) == 2 and None not in labs and x.ndim >= 1 and x.dims[0]:
                     if labs == [x.dims[0], recv.label]:
                         p = x.poly
